@@ -322,6 +322,10 @@ class Server(_Server_):
             res = function(*args, **kwds)
         except Exception as e:
             msg = ('#ERROR', self._wrap_user_exc(e))
+            # The traceback text is in `msg` now. Drop the traceback object: it refers to this
+            # frame, hence to `args`, and the cycle would keep them (e.g. proxies, hence other
+            # hosted objects) alive until the cyclic garbage collector runs.
+            e.__traceback__ = None
             return msg
 
         typeid = gettypeid and gettypeid.get(methodname, None)
@@ -681,7 +685,12 @@ class BaseProxy(_BaseProxy_):
         elif kind == '#PROXY':
             return result
 
-        raise convert_to_error(kind, result)
+        try:
+            raise convert_to_error(kind, result)
+        finally:
+            # Do not keep the exception in this frame: exception -> traceback -> frame -> exception
+            # is a reference cycle that would keep `args` alive until the cyclic GC runs.
+            del result
 
     def _dispatch(self, methodname):
         conn = self._Client(self._token.address, authkey=self._authkey)
